@@ -242,6 +242,48 @@ pub fn run(rep: &mut Rep) {
             }
         }
     }
+    // requests whose future is dropped before the context gets to them: the user's DISCONNECT still ends run() with Ok(()),
+    // any other abandoned request is not a terminating cause
+    for kind in [Kind::Disc, Kind::Pub0, Kind::Pub1, Kind::Pub2, Kind::Sub, Kind::Unsub, Kind::Ping] {
+        for state in 0..5u8 {
+            for how in 0..2u8 {
+                let id = format!("abandoned:{}:s{state}:h{how}", kind.name());
+                idx += 1;
+                if !rep.take(idx, &id) {
+                    continue;
+                }
+                let mut w = World::boot(WorldCfg { seed: rep.seed, ..Default::default() });
+                prepare(&mut w, state);
+                if how == 0 {
+                    w.sim.hold_ctx = true;
+                } else {
+                    w.sim.stall_writer();
+                }
+                let i = w.start(0, kind);
+                if kind == Kind::Disc && w.term.is_none() {
+                    w.term = Some(Term::UserDisconnect);
+                }
+                w.settle_check();
+                w.drop_op(i);
+                if how == 0 {
+                    w.sim.hold_ctx = false;
+                } else {
+                    w.sim.release_writer();
+                }
+                w.settle_check();
+                // a second look: nothing terminating happened (or: the DISCONNECT went out)
+                w.settle_check();
+                finish(&mut w);
+                rep.add("evaluations", 1);
+                rep.add("abandoned_requests", 1);
+                rep.distinct(&("abandoned", kind.name(), state, how));
+                if harvest(rep, &mut w, &id) == 0 {
+                    rep.sample(|| format!("{id} -> run() = {:?}", w.sim.run_result()));
+                }
+                add_counters(rep, &w);
+            }
+        }
+    }
     // (c) cause injected after every prefix of bounded scripts (enumerated), including "no cause: run() keeps running"
     let a = Alpha {
         kinds: vec![Kind::Pub1, Kind::Pub2, Kind::Sub],
@@ -260,6 +302,7 @@ pub fn run(rep: &mut Rep) {
         ],
         after_term: true,
         race: true,
+        drops: true,
         ..Default::default()
     };
     let depth = if rep.quick() { 5 } else { 7 };
